@@ -1060,6 +1060,38 @@ func c10RunE(e *Env) {
 				r.Check(successEdge(fn, rerr, ret), "R10.5", key+"#nil-iff-success", "RunE returns nil only when runner.Run returned nil", e.P.Pos(ret.Pos()))
 			} else {
 				r.Check(ts.has(v), "R10.5", key+"#error-iff-failure", "RunE returns the runner's error (so main exits 1)", e.P.Pos(ret.Pos()))
+				// through a helper of the package (return report(out, err)): the helper returns nil only for a nil error
+				if c, isCall := v.(*ssa.Call); isCall && v != rerr && ssa.Value(c) != runs[0].Value() {
+					if g := c.Call.StaticCallee(); g != nil && e.P.InModule(g) && len(g.Blocks) > 0 {
+						pi := -1
+						for i, a := range c.Call.Args {
+							if a == rerr && i < len(g.Params) {
+								pi = i
+							}
+						}
+						if pi < 0 {
+							r.Undecide("R10.5", key+"#error-iff-failure-through-helper", "the runner's error reaches the result through "+e.P.FuncKey(g)+", which does not receive it as a parameter", e.P.Pos(ret.Pos()))
+						} else {
+							okH := true
+							gts := taintFrom(g, g.Params[pi])
+							for _, gb := range g.Blocks {
+								gret, isRet := gb.Instrs[len(gb.Instrs)-1].(*ssa.Return)
+								if !isRet || len(gret.Results) == 0 {
+									continue
+								}
+								gv := gret.Results[len(gret.Results)-1]
+								if isNilConst(gv) {
+									if !successEdge(g, g.Params[pi], gret) {
+										okH = false
+									}
+								} else if !gts.has(gv) {
+									okH = false
+								}
+							}
+							r.Check(okH, "R10.5", key+"#error-iff-failure-through-helper", "the helper "+e.P.FuncKey(g)+" returns nil only behind its error parameter being nil, and that error otherwise (an exit status that depends on --quiet or on the writer is wrong)", e.P.Pos(ret.Pos()))
+						}
+					}
+				}
 			}
 		}
 	}
